@@ -81,12 +81,17 @@ Evict(e) ==
   /\ store' = Drop(store, KeyOf(CurStep, e)) /\ nevict' = nevict + 1
   /\ UNCHANGED <<clock, nreq, cur, pos, phase, items, last, resp, ref>>
 
-Found(gf) == IF gf = "ok" THEN Live(store, clock, KeysOf(CurStep)) ELSE {}
-IsHit(found) == IF Bug = "partial_as_full" THEN found # {} ELSE FullHit(found, KeysOf(CurStep))
+\* Get results: "ok", "err" (GetMany fails) and "empty" (GetMany reports a key as found but with an empty Value:
+\* that is a miss, caching.Item doc / responseCacheLookup)
+GetResults == IF GetFaults THEN {"ok", "err", "empty"} ELSE {"ok"}
+Found(gf) == IF gf = "err" THEN {} ELSE Live(store, clock, KeysOf(CurStep))
+IsHit(found, gf) == IF Bug = "partial_as_full" THEN found # {} /\ gf = "ok"
+                    ELSE IF Bug = "empty_is_hit" THEN FullHit(found, KeysOf(CurStep))
+                    ELSE gf = "ok" /\ FullHit(found, KeysOf(CurStep))
 
 Lookup(gf) ==
   /\ phase = "lookup"
-  /\ gf \in (IF GetFaults THEN {"ok", "err"} ELSE {"ok"})
+  /\ gf \in GetResults
   /\ LET st == CurStep
          found == Found(gf)
          truth == [mark |-> "clean", vals |-> [e \in st.batch |-> Truth(st, e)]]
@@ -95,9 +100,10 @@ Lookup(gf) ==
              /\ ref' = Append(ref, truth)
              /\ Advance(TRUE)
              /\ UNCHANGED <<store, clock, nreq, items, last, nevict>>
-        ELSE IF IsHit(found)
+        ELSE IF IsHit(found, gf)
         THEN /\ resp' = Append(resp, [mark |-> "clean",
-                                      vals |-> [e \in st.batch |-> IF KeyOf(st, e) \in found THEN store[KeyOf(st, e)].val ELSE Null]])
+                                      vals |-> [e \in st.batch |-> IF KeyOf(st, e) \in found /\ ~(gf = "empty" /\ e = Lowest(st.batch))
+                                                                   THEN store[KeyOf(st, e)].val ELSE Null]])
              /\ ref' = Append(ref, truth)
              /\ Advance(FALSE)
              /\ UNCHANGED <<store, clock, nreq, items, last, nevict>>
@@ -147,7 +153,7 @@ Flush(applied) ==
 Next == \/ EndReq
         \/ \E q \in 1..Len(Menu), d \in 0..MaxTick : StartReq(q, d)
         \/ \E e \in 1..3 : Evict(e)
-        \/ \E gf \in {"ok", "err"} : Lookup(gf)
+        \/ \E gf \in GetResults : Lookup(gf)
         \/ \E o \in Outcomes, hi \in 1..Len(Headers) : Load(o, hi)
         \/ \E ap \in Applicable : Flush(ap)
 Spec == Init /\ [][Next]_vars
